@@ -48,7 +48,7 @@ CLAIMED = {
         note="Trusted: Lean kernel + standard axioms, gen_scope translator, hand-written resolver/compiler/machine models (tied by the two streams); environment/machine simulation (C02_env_simulation) is checked per program, not proved",
         technique="Lean 4 simulation proofs over scoping programs + generated tables + compile-log and program streams"),
     "C03": dict(
-        text="Lean theorems for class chains of any depth: field-index bijection, instance slot count, field set = names assigned on self in the chain's initialisers, fixed compile-time index valid in every descendant, flattened lookup = most-derived-first walk (methods and init), lexical super lookup, fused invoke = get-then-call, field shadows method, bound-method receiver, and that the emitted Class/Inherit/Field/Method sequence builds exactly that class; API-level stream against laythe_core Class/Instance, generated class programs judged by an executable Lean class semantics, compile-log tie for the field numbering",
+        text="Lean theorems for class chains of any depth: field-index bijection, instance slot count, field set = names assigned on self in the chain's initialisers, fixed compile-time index valid in every descendant, flattened lookup = most-derived-first walk (methods and init), lexical super lookup, the implicit superclass is the built-in Object whatever the program names its own things (D26 repaired in /repo; open D26b: assigning to the module copy of Object), fused invoke = get-then-call, field shadows method, bound-method receiver, and that the emitted Class/Inherit/Field/Method sequence builds exactly that class; API-level stream against laythe_core Class/Instance, generated class programs judged by an executable Lean class semantics, compile-log tie for the field numbering",
         note="Trusted: Lean kernel + standard axioms, hand-written class/VM-call model (tied by the three streams), harness; whole-program equivalence (C03_full) is sampled, not proved",
         technique="Lean 4 structural-induction proofs over class chains + API/program/compile-log correspondence streams"),
     "C04": dict(
@@ -72,8 +72,8 @@ CLAIMED = {
         note="Trusted: Lean kernel + standard axioms, translate_c15.py, hand-written scanner/loop/contract models; the parser grammar (~2300 lines) and code generation are sampled by the malformed stream, not modelled; D21, D31, D151-D155 repaired in /repo (no open finding)",
         technique="Lean 4 totality/progress proofs for scanner and declaration loop + decide over generated narrowing table + malformed-input outcome stream"),
     "C16": dict(
-        text="Lean theorems: signature check soundness for all arities and argument lists; by decide +kernel over the table of all natives regenerated from laythe_lib, every body unwrap site is justified by the declared signature, receiver convention or a dominating test, except an explicit list of known-bad rows each proved to really fail; committed lists of callback-result unwraps and stack-less callback natives; frame limit invariant with the exact bypass witness; non-callable dispatch table; real signature checker compared with the model, native x argument-kind matrix through real programs in isolated workers (debug and release), recursion shapes, error-in-handler shapes",
-        note="Trusted: Lean kernel + standard axioms, translate_natives.py (text scan of native bodies), harness workers; host panics and memory faults are runtime behaviour: the model predicts where they cannot happen, the streams search for the rest; many genuine crashes are known findings",
+        text="Lean theorems: signature check soundness for all arities and argument lists; by decide +kernel over the table of all natives regenerated from laythe_lib, every body unwrap site is justified by the declared signature, receiver convention or a dominating test (no exception list), no instance field is unwrapped unchecked, the frame count never exceeds MAX_FRAME_SIZE along every call/native-enter/leave/return sequence (no bypass), the hook call family hands every signal of a resolved call back without a panic, no native uses a standard sort that panics on a non-total order, Display nests at most 64 levels on every (also cyclic) graph; fiber stack and channel capacity texts; non-callable dispatch table; real signature checker compared with the model, native x argument-kind matrix through real programs in isolated workers (debug and release), recursion shapes with exact frame counts, error-in-handler shapes, Display of cyclic/deep graphs compared exactly with the model, deep-format matrix (11 builders x 10 sinks at depth 10000, debug and release)",
+        note="Trusted: Lean kernel + standard axioms, translate_natives.py (text scan of native bodies), harness workers; host panics and memory faults are runtime behaviour: the model predicts where they cannot happen, the streams search for the rest; 21 genuine crashes repaired in /repo; open: D11, D6, DC16.7, DC16.13 (recursive mark), DC16.14 (iterator chain recursion)",
         technique="Lean 4 decide-over-generated-table proofs + signature-check soundness + native matrix and recursion streams"),
     "C17": dict(
         text="Lean theorems on the import state machine: for every acyclic module graph and every order/multiplicity/form of imports each body starts at most once and has completed before its importer continues, export tables and import objects are exactly the export declarations, non-exported names and missing modules give the import error, the loader never reaches todo!/unwrap (all path lengths), the package map is constant, `std.p` is the library module or an import error and any other package an import error whatever user modules are called, `self.p` is the file of path p with its body completed (D25-module-shadows-package and DC17.1 repaired in /repo; package writes and the library tree tied by generated rows); generated multi-file programs judged by a run-once Spec and the exact model",
